@@ -393,6 +393,8 @@ class Script(object):
                     data_length = int.from_bytes(script.read(1), 'little')
                 elif ch == op.op_pushdata2:
                     data_length = int.from_bytes(script.read(2), 'little')
+                elif ch == op.op_pushdata4:
+                    data_length = int.from_bytes(script.read(4), 'little')
                 if data_length:
                     data = script.read(data_length)
                     if len(data) != data_length:
